@@ -20,8 +20,9 @@ from holopy.core.io.vis import display_image
 from holopy.core.metadata import data_grid, detector_grid, update_metadata, to_vector, get_spacing
 
 ID = "C16"
-LEAN_MODULES = ["HoloProps.C16"]
-MODEL_MODULES = ["HoloModel.ImageIO", "HoloModel.ImgProc"]
+LEAN_MODULES = ["HoloProps.C16", "HoloProps.C16Gen"]
+MODEL_MODULES = ["HoloModel.ImageIO", "HoloModel.ImgProc", "HoloGen.PyVis", "HoloGen.PySave"]
+GEN_DEPS = ["PyVis", "PySave"]
 NOT_PROVED = [
     "h5netcdf/HDF5 and Pillow (TIFF/PNG encoders) are externals: their round trips are exercised by the search on generated files",
     "yaml.safe_load(yaml.dump(v)) = v for metadata scalars/lists is a hypothesis of C16_attrs_roundtrip (sampled)",
